@@ -6,6 +6,7 @@ import os
 
 HERE = os.path.dirname(os.path.abspath(__file__))
 LABEL = {
+    "S-C20-d": "`path_jordan` inverts clockwise curves in place before drawing (the shape is changed by plotting)",
     "S-C01-a": "`Intersection.lines`: `denom != 0` → `abs(denom) > 1e-6` (millimetre exact polygons lose crossings)",
     "S-C01-b": "`JordanCurve.box()` cached, not reset by `move`",
     "S-C01-c": "`DivideConnecteds` groups by area only (island in a hole mis-nested)",
@@ -13,6 +14,7 @@ LABEL = {
     "S-C02-a": "`PlanarCurve.__contains__` compares squared distance with the unsquared tolerance",
     "S-C02-b": "`JordanCurve.box()` cached, not reset by `move`",
     "S-C02-c": "`ConnectedShape._contains_point` box quick-reject from the first subshape",
+    "S-C02-d": "`JordanCurve.__float__` takes its sign from the shoelace of the segment end points",
     "S-C03-a": "`_contains_jordan` early exit when the boundaries do not meet",
     "S-C03-b": "`DefinedShape.box()` memoised; transformations of the jordans do not reset it",
     "S-C03-c": "`ConnectedShape._contains_shape` skips holes by bounding box",
@@ -20,6 +22,7 @@ LABEL = {
     "S-C04-a": "`IntegrateJordan.vertical` memoised per exponent, not reset by `move`",
     "S-C04-b": "`IntegratePlanar.vertical` returns 0 for segments with an axis-parallel chord",
     "S-C04-c": "`IntegrateShape.polynomial` recurses into subshapes with |·|",
+    "S-C04-d": "`IntegrateShape.area` default node count `1 + degree` (cubic areas under-integrated)",
     "S-C05-a": "`JordanCurve.box()` cached, not reset by `move`",
     "S-C05-b": "`FollowPath` drops closed paths of fewer than 3 pieces (two-arc lenses)",
     "S-C05-c": "`PlanarCurve.invert` only swaps first and last control point (wrong for degree ≥ 3)",
@@ -31,6 +34,7 @@ LABEL = {
     "S-C07-a": "`JordanCurve.__eq__` rejects on control-point boxes",
     "S-C07-b": "`DisjointShape.__eq__` one-directional matching",
     "S-C07-c": "`JordanCurve.clean()` single pass (three pieces of one segment)",
+    "S-C07-d": "`PlanarCurve.__or__` guesses the junction parameter from chords instead of control legs",
     "S-C08-a": "`JordanCurve.__deepcopy__` shares interior control points with the source",
     "S-C08-b": "`indexs_to_jordan` copies once at the end (pieces shared with operands)",
     "S-C08-c": "`__or__` fast path for apart boxes returns the operands themselves",
@@ -38,6 +42,7 @@ LABEL = {
     "S-C09-a": "`JordanCurve.vertices` de-duplicates by value (equal points moved once)",
     "S-C09-b": "`JordanCurve.box()` lazily cached, stale after `rotate`",
     "S-C09-c": "`SimpleShape` keeps the caller's `JordanCurve` (no copy)",
+    "S-C09-d": "`move/scale/rotate` traverse `subshape.jordans[0]` only (holes of components stay)",
     "S-C10-a": "`scale` multiplies the cached signed length by the signed factor",
     "S-C10-b": "`DefinedShape.box()` memoised",
     "S-C10-c": "`__deepcopy__` of Connected/Disjoint is shallow (same SimpleShapes)",
@@ -45,6 +50,7 @@ LABEL = {
     "S-C11-a": "`__float__` stores the unsigned length before the area call (interrupt leaves a cw curve positive)",
     "S-C11-b": "`Point2D.scale` augmented assignment (x scaled before y validated)",
     "S-C11-c": "`__contains_simple` inverts operands in place and back",
+    "S-C11-d": "`__split_segment` pops the segment and splices the pieces back (open curve in between)",
     "S-C12-a": "`JordanCurve.box()` cached, not reset by `move`",
     "S-C12-b": "`Point2D.__eq__` relative tolerance",
     "S-C12-c": "adaptive winding stops on the end-point box instead of the control-point box",
@@ -52,6 +58,7 @@ LABEL = {
     "S-C13-a": "`Intersection.lines` caps exact parameters at 1e9",
     "S-C13-b": "`Intersection.lines` float parallel test",
     "S-C13-c": "Gauss–Legendre floats above 8 nodes in rational integrals",
+    "S-C13-d": "`Primitive.square`: `side / 2` on a raw int gives float vertices",
     "S-C14-a": "`Intersection.lines` `abs(denom) < 1e-6` ⇒ parallel",
     "S-C14-b": "memoised derivative curves, stale after in-place transformation",
     "S-C14-c": "box short-cut in `PlanarCurve.__and__` (zero-width box intersection)",
@@ -59,9 +66,11 @@ LABEL = {
     "S-C15-a": "`BezierCurve.clean` tolerance scaled by control-point norm",
     "S-C15-b": "subdivision matrices memoised by value: float matrices reused for Fraction parameters",
     "S-C15-c": "`JordanCurve.split` compares a parameter only with the last one kept (unsorted repeats survive)",
+    "S-C15-d": "`JordanCurve.clean` single linear pass (runs of 3+ pieces only paired up)",
     "S-C16-a": "`circle` ring not closed with the exact first point",
     "S-C16-b": "`regular_polygon` angles from `np.arange` (extra vertex for some n)",
     "S-C16-c": "`circle` validation `and` for `or`: ndivangle ≤ 3 accepted",
+    "S-C16-d": "`Primitive.triangle` built by `move(center).scale(side)` (translation scaled too)",
     "S-C17-a": "`vertices` de-duplicated by value",
     "S-C17-b": "`from_full_curve` no longer cleans pieces",
     "S-C17-c": "orientation from the shoelace of control vertices",
@@ -69,6 +78,7 @@ LABEL = {
     "S-C18-a": "`Math.comb` floor-divides the factor: wrong from n = 5",
     "S-C18-b": "`BezierCurve.eval` memoised coefficients stale after in-place moves",
     "S-C18-c": "`BezierCurve.split` de Casteljau rewrite: middle pieces cut at the un-normalised parameter",
+    "S-C18-d": "`PlanarCurve.box()` from derivative roots; roots dropped when the leading coefficient vanishes",
     "S-C19-a": "`DisjointShape.__eq__` zip comparison",
     "S-C19-b": "`DisjointShape.__new__` recognises Empty by area < tolerance",
     "S-C19-c": "`ConnectedShape._contains_point` box quick-reject",
